@@ -1,0 +1,15 @@
+//go:build verif
+// +build verif
+
+package you
+
+import "reflect"
+
+// VerifC14WireTypes exposes (by reflection only) the unexported network payload structs of the you
+// protocol, so that the C14 schema translator reads the real field lists. Compiled only with -tags verif.
+func VerifC14WireTypes() map[string]reflect.Type {
+	return map[string]reflect.Type{
+		"statusData":          reflect.TypeOf(statusData{}),
+		"getBlockHeadersData": reflect.TypeOf(getBlockHeadersData{}),
+	}
+}
